@@ -134,7 +134,8 @@ def _child(plan, wfd):
             f.write(bringup.GOOD_PIN)
     os.environ["PIN"] = bringup.GOOD_PIN.decode()
     # configuration of the manager as an environment choice: 0 = no logging configuration file (the built-in
-    # DEBUG-to-stdout one), 1 = a production-like file (WARNING and above to a log file) with -D, 2 = -D alone
+    # DEBUG-to-stdout one), 1 = a production-like file (WARNING and above to a log file) with -D, 2 = -D alone,
+    # 3 = standard output closed
     cfg = plan.get("cfg", 0)
     logcfg = os.path.join(os.path.dirname(pin_path), "no-such-logging.cfg")
     if cfg == 1:
@@ -160,6 +161,21 @@ def _child(plan, wfd):
         runner = ManagerRunner("powHSM manager for TCPSigner",
                                lambda o: HSM2DongleTCP(o.tcpconn_host, o.tcpconn_port, o.io_debug),
                                load_pin=lambda o: None)
+    # a manager process starts with no logger configured or created yet (logging.config.fileConfig disables the
+    # loggers that exist when it runs: what this interpreter created earlier must not be among them)
+    import logging
+    logging.Logger.manager.loggerDict.clear()
+    for h in list(logging.root.handlers):
+        logging.root.removeHandler(h)
+    logging.disable(logging.NOTSET)
+    if cfg == 3:
+        # started with its standard output closed (a daemoniser, `>&-`): Python then has sys.stdout = None
+        import sys
+        try:
+            os.close(1)
+        except OSError:
+            pass
+        sys.stdout = None
     try:
         runner.run(options)
         emit({"k": "exit", "how": "returned"})
@@ -257,7 +273,7 @@ GOOD_ENV = {"onb": "yes", "mode1": "signer", "uiver": [5, 4, 1], "echo": "t", "r
 
 
 def run_lifetime(scratch, tag, should, causes, v1, rng, start_env=None, plat="ledger", client_lines=None,
-                 variant=None, explicit=None):
+                 variant=None, explicit=None, cfg=None):
     """Fork one manager process. Returns (events, info)."""
     env.setup()
     e = dict(GOOD_ENV)
@@ -318,7 +334,7 @@ def run_lifetime(scratch, tag, should, causes, v1, rng, start_env=None, plat="le
         labels.append(label)
     plan = {"seed": rng.random(), "env": e, "needchg": needchg, "v1": v1, "reqs": steps, "plat": plat,
             "pin_file": None if pin_file is None else pin_file.hex(),
-            "pin_path": os.path.join(scratch, "pin_%s.txt" % tag), "cfg": zlib.crc32(tag.encode()) % 3}
+            "pin_path": os.path.join(scratch, "pin_%s.txt" % tag), "cfg": zlib.crc32(tag.encode()) % 4 if cfg is None else cfg}
     r, w = os.pipe()
     pid = os.fork()
     if pid == 0:
